@@ -808,7 +808,11 @@ def bounded(tier, seed):
             if ch is None:
                 b.fail("tls.valid_hello_complete", inp, "reported incomplete")
                 continue
-            got = _observe(ch)
+            try:
+                got = _observe(ch)
+            except Exception as e:
+                b.fail("tls.accessors_total", inp, f"{type(e).__name__}: {e}")
+                continue
             for f in ("sni", "alpn", "ciphers", "extensions"):
                 if got[f] != want[f]:
                     b.fail(f"tls.equals_independent_reader.{f}", inp, f"got {got[f]!r} want {want[f]!r}")
